@@ -287,6 +287,19 @@ func foreignJoinOperand(p *Prog, v ssa.Value, seen map[ssa.Value]bool) string {
 			}
 			return foreignJoinOperand(p, x.Common().Args[1], seen)
 		}
+		// a module function returning the list: what it returns
+		if f := x.Common().StaticCallee(); f != nil && p.InModule(f) && len(f.Blocks) > 0 {
+			for _, b := range f.Blocks {
+				for _, ins := range b.Instrs {
+					if ret, ok := ins.(*ssa.Return); ok && len(ret.Results) >= 1 {
+						if w := foreignJoinOperand(p, ret.Results[0], seen); w != "" {
+							return w
+						}
+					}
+				}
+			}
+			return ""
+		}
 		return "errors.Join of " + x.Name()
 	case *ssa.Slice:
 		// slice of a [N]error literal: the stored elements
